@@ -275,9 +275,6 @@ def check_case(case):
             flat = [c for calls in ctxs.values() for c in calls]
             if len(flat) != len(cfg.calls) or any(c.context != k for k, calls in ctxs.items() for c in calls):
                 vs.append(V(f"{PROP}|{shape_sig}|symptom=contexts-grouping", "Config.contexts does not partition the calls by their context", len(cfg.calls), len(flat)))
-            nwin = len({(c["starting"], c["ending"], c["region"]) for c in exp})
-            if len(ctxs) != nwin and exp:
-                vs.append(V(f"{PROP}|{shape_sig}|symptom=contexts-count", f"{len(ctxs)} context groups for {nwin} distinct (window, region)", nwin, len(ctxs)))
         for c, o in zip(cfg.calls, got):
             cc = alpha.call(c.config)
             if isinstance(cc, alpha.Raised) or json.loads(json.dumps(cc, default=str)) != {o["module"]: {o["method"]: o["kwargs"]}}:
